@@ -4,6 +4,7 @@ import (
 	"go/ast"
 	"go/token"
 	"go/types"
+	"sort"
 	"strings"
 
 	"verifcheck/core"
@@ -170,4 +171,40 @@ func ruleCopySkipIsSameContent(c *Ctx, rule string) {
 		c.Check(rule, f.Key()+" skip-return#"+itoa(n), c.Pos(ex.Return), ok, "success without writing is guarded only by the size of the existing file: a manifest link of the same size keeps its old content while Link reports success")
 	}
 	c.Expect(rule, "success returns of copyNamedFile that skip the copy", n, 1)
+}
+
+func init() {
+	p := registry["C08"]
+	p.Pkgs = append(p.Pkgs, namesPkg)
+	prev := p.Run
+	p.Run = func(c *Ctx) { prev(c); extraC08Names(c) }
+}
+
+// extraC08Names is C08-R14: the name→path mapping of the blob cache stays under manifests/ because of
+// the byte classes names.isValidPart accepts (the same exact evaluation as C13-R1, for the one parser
+// the cache uses).
+func extraC08Names(c *Ctx) {
+	rule := "C08-R14"
+	c.Rule(rule, "a name cannot address a blob: the cache turns a name into manifests/<host>/<namespace>/<model>/<tag>, so names.isValidPart must accept, for every kind of part, only first bytes from [A-Za-z0-9_] (no part can be \".\" or \"..\") and no path separator or NUL anywhere — evaluated exactly, for all 256 byte values, both positions and every kind, by the byte-classifier interpreter (a name such as ../blobs/sha256-<hex>:. would otherwise make Link overwrite, and Unlink delete, a blob)")
+	nk := kindConsts(c, namesPkg, "part")
+	if !c.Expect(rule, "part kinds in names", len(nk), 4) {
+		return
+	}
+	alnum := core.NewIvSet(core.Iv{Lo: '0', Hi: '9'}, core.Iv{Lo: 'A', Hi: 'Z'}, core.Iv{Lo: 'a', Hi: 'z'}, core.Iv{Lo: '_', Hi: '_'})
+	cls := classifyParts(c, rule, namesPkg, nk)
+	var ks []string
+	for k := range cls {
+		ks = append(ks, k)
+	}
+	sort.Strings(ks)
+	for _, k := range ks {
+		pc := cls[k]
+		key := namesPkg + ".isValidPart[" + k + "]"
+		if pc.Undecided != "" {
+			c.Undecided(rule, key, "-", "outside the interpreted fragment: "+pc.Undecided)
+			continue
+		}
+		c.Check(rule, key+" first byte cannot start a dot component", "-", pc.First.Minus(alnum).Empty(), "first-byte class is "+pc.First.String()+", want a subset of "+alnum.String())
+		c.Check(rule, key+" no separator or NUL", "-", !pc.Rest.Contains('/') && !pc.Rest.Contains('\\') && !pc.Rest.Contains(0) && !pc.First.Contains('/') && !pc.First.Contains('\\') && !pc.First.Contains(0), "rest class is "+pc.Rest.String())
+	}
 }
